@@ -20,7 +20,7 @@ classdecl("Server", file=F, fields=dict(axes=AX, ixes=Dict(HA, Ref("Incomer")), 
                                         store=Ref("StoreLike"), timeout=REAL, eha=HA, ha=HA,
                                         ss=Opt(Ref("ListenSock"))))
 classdecl("Acceptor", file=F, bases=(), fields=dict(axes=AX, ss=Opt(Ref("ListenSock")), ha=HA))
-REG.classes["Incomer"].fields.update(peer_ca=HA)
+REG.classes["Incomer"].fields.update(peer_ca=HA, shut=BOOL)      # `shut`: ghost, set by shutdown/close
 REG.classes["Server"].bases = ("Acceptor",)
 
 
@@ -46,12 +46,17 @@ def _incomer_ctor(E, cv, args, kwargs):
     E.wr_field(obj, "cs", kwargs["cs"])
     E.wr_field(obj, "peer_ca", kwargs["ca"])
     E.wr_field(obj, "cutoff", False)
+    E.wr_field(obj, "shut", False)
     E.ct_append("Incomer", obj, kwargs["cs"])
     return obj
 
 
+def _mark_shut(E, obj, args, kwargs):
+    E.wr_field(obj, "shut", True)
+
+
 for _m in ("shutdown", "shutdownSend", "shutdownReceive", "shutclose", "close"):
-    REG.classes["Incomer"].hooks[("getattr", _m)] = opaque_method("Incomer." + _m)
+    REG.classes["Incomer"].hooks[("getattr", _m)] = opaque_method("Incomer." + _m, effect=_mark_shut)
 
 REG.assume_note("C26: Incomer(...) construction and Incomer.shutdown/close/shutclose are opaque (traced); "
                 "listening-socket accept() is external: returns a (socket, address) pair or raises any errno")
@@ -68,14 +73,14 @@ def _snap_axes(E):
 
 PROCESSED = "(len(g_axes) - len(self.axes))"
 contract(F, "Server.shutdownIx", "C26", params=dict(self=Ref("Server"), ca=HA, how=INT),
-         modifies=[], ensures=["ca in self.ixes"],
+         modifies=["self.ixes[ca].shut"], ensures=["ca in self.ixes", "self.ixes[ca].shut"],
          raises={"ValueError": ["ca not in self.ixes"]},
          local_ensures=["ct_len() == 1 and ct_is(0, 'Incomer.shutdown', self.ixes[ca])"])
 contract(F, "Server.closeIx", "C26", params=dict(self=Ref("Server"), ca=HA),
-         modifies=[], ensures=["ca in self.ixes"], raises={"ValueError": ["ca not in self.ixes"]},
+         modifies=["self.ixes[ca].shut"], ensures=["ca in self.ixes", "self.ixes[ca].shut"], raises={"ValueError": ["ca not in self.ixes"]},
          local_ensures=["ct_len() == 1 and ct_is(0, 'Incomer.close', self.ixes[ca])"])
 contract(F, "Server.removeIx", "C26", params=dict(self=Ref("Server"), ca=HA, shutclose=BOOL),
-         modifies=["self.ixes{*}"],
+         modifies=["self.ixes{*}", "self.ixes[ca].shut"],
          ensures=["ca not in self.ixes", "old(ca in self.ixes)",
                   "forall(Opaque('ha'), lambda k: implies(k != ca, (k in self.ixes) == old(k in self.ixes)))",
                   "forall(Opaque('ha'), lambda k: implies(k != ca and k in self.ixes, self.ixes[k] is old(self.ixes[k])))"],
@@ -85,8 +90,10 @@ contract(F, "Server.removeIx", "C26", params=dict(self=Ref("Server"), ca=HA, shu
                         "implies(not shutclose, ct_len() == 0)"])
 
 contract(F, "Server.serviceAxes", "C26", params=dict(self=Ref("Server")),
+         assumes=["forall(Opaque('ha'), lambda k: implies(k in self.ixes, not fresh(self.ixes[k])))"],
+         requires=["forall(Opaque('ha'), Opaque('ha'), lambda k1, k2: implies(k1 != k2 and k1 in self.ixes and k2 in self.ixes, self.ixes[k1] is not self.ixes[k2]))"],
          ghost={"after": {"self.serviceAccepts()": _snap_axes}},
-         modifies=["self.axes[*]", "self.ixes{*}"],
+         modifies=["self.axes[*]", "self.ixes{*}", havoc_all_but({"Incomer": ["shut"]}, keep=[])], frame=False,
          loops={0: dict(inv=[
              "0 <= %s and len(self.axes) <= len(g_axes)" % PROCESSED,
              "forall(lambda j: implies(0 <= j and j < len(self.axes), self.axes[j] == g_axes[%s + j]))" % PROCESSED,
@@ -97,6 +104,11 @@ contract(F, "Server.serviceAxes", "C26", params=dict(self=Ref("Server")),
              "forall(Opaque('ha'), lambda k: implies(old(k in self.ixes), k in self.ixes))",
              "forall(Opaque('ha'), lambda k: implies(k in self.ixes and not fresh(self.ixes[k]), "
              "old(k in self.ixes) and self.ixes[k] is old(self.ixes[k])))",
+             # the connection now in the table for an accepted address is live; a stale one it replaced was shut down
+             "forall(Opaque('ha'), lambda k: implies(k in self.ixes and fresh(self.ixes[k]), not self.ixes[k].shut))",
+             "forall(Opaque('ha'), lambda k: implies(old(k in self.ixes) and fresh(self.ixes[k]), old(self.ixes[k]).shut))",
+             # distinct addresses hold distinct connection objects
+             "forall(Opaque('ha'), Opaque('ha'), lambda k1, k2: implies(k1 != k2 and k1 in self.ixes and k2 in self.ixes, self.ixes[k1] is not self.ixes[k2]))",
          ], locals={})},
          ensures=[
              "len(self.axes) == 0",
@@ -105,6 +117,8 @@ contract(F, "Server.serviceAxes", "C26", params=dict(self=Ref("Server")),
              "forall(Opaque('ha'), lambda k: implies(old(k in self.ixes), k in self.ixes))",
              "forall(Opaque('ha'), lambda k: implies(k in self.ixes and not fresh(self.ixes[k]), "
              "old(k in self.ixes) and self.ixes[k] is old(self.ixes[k])))",
+             "forall(Opaque('ha'), lambda k: implies(k in self.ixes and fresh(self.ixes[k]), not self.ixes[k].shut))",
+             "forall(Opaque('ha'), lambda k: implies(old(k in self.ixes) and fresh(self.ixes[k]), old(self.ixes[k]).shut))",
          ],
          raises={"ValueError": ["True"], "OSError": ["True"]},
          note="ValueError only for a malformed accepted socket (peer name differs from the accepted address); "
